@@ -21,7 +21,7 @@ DDM = "menelaus/concept_drift/ddm.py"
 EDDM = "menelaus/concept_drift/eddm.py"
 STEPD = "menelaus/concept_drift/stepd.py"
 M("c05_ddm_drift_gt", DDM, ">= self._error_rate_min + self.drift_scale * self._error_std", "> self._error_rate_min + self.drift_scale * self._error_std", ["C05"])
-M("c05_ddm_nthreshold_le", DDM, "if self.samples_since_reset < self.n_threshold:", "if self.samples_since_reset <= self.n_threshold:", ["C05", "C01"])
+M("c05_ddm_nthreshold_le", DDM, "if self.samples_since_reset < self.n_threshold:", "if self.samples_since_reset <= self.n_threshold:", ["C05"])
 # (equivalent on every workload: `<=` -> `<` in the DDM minimum update only matters when two different (p, s) pairs
 #  have bit-identical sums)
 M("c05_ddm_recs_warning_index", DDM, "            self._retraining_recs[1] = self.total_samples - 1\n", "            self._retraining_recs[1] = self.total_samples - 1 if self._retraining_recs[0] is None else self._retraining_recs[0] + 1\n", ["C05"])
@@ -31,9 +31,9 @@ M("c05_eddm_dist_from_last", EDDM, "dist = self._index_error_curr - self._index_
 M("c05_eddm_drift_lt", EDDM, "if self._test_statistic <= self.drift_thresh:", "if self._test_statistic < self.drift_thresh:", ["C05"])
 M("c05_eddm_reset_keeps_max", EDDM, "        self._dist_std = 0\n        self._max_numerator = 0\n        self._test_statistic = None\n        self._initialize_retraining_recs()\n\n    # XXX",
   "        self._dist_std = 0\n        self._test_statistic = None\n        self._initialize_retraining_recs()\n\n    # XXX", ["C05", "C02"])
-M("c05_eddm_nerr_guard", EDDM, "if self._n_errors < self.n_threshold:", "if self._n_errors <= self.n_threshold:", ["C05", "C01"])
+M("c05_eddm_nerr_guard", EDDM, "if self._n_errors < self.n_threshold:", "if self._n_errors <= self.n_threshold:", ["C05"])
 M("c05_stepd_guard_flipped", STEPD, "accuracy_decreased = past_accuracy > recent_accuracy", "accuracy_decreased = past_accuracy >= recent_accuracy", ["C05"])
-M("c05_stepd_two_windows", STEPD, "if self.samples_since_reset >= 2 * self.window_size:", "if self.samples_since_reset > 2 * self.window_size:", ["C05", "C01"])
+M("c05_stepd_two_windows", STEPD, "if self.samples_since_reset >= 2 * self.window_size:", "if self.samples_since_reset > 2 * self.window_size:", ["C05"])
 M("c05_stepd_reset_keeps_r", STEPD, "self._s, self._r = 0, 0\n        self._window = []\n        self._test_statistic = None\n        self._test_p = None\n        self._initialize_retraining_recs()\n\n    def update",
   "self._s = 0\n        self._window = []\n        self._test_statistic = None\n        self._test_p = None\n        self._initialize_retraining_recs()\n\n    def update", ["C05", "C02"])
 M("c05_stepd_recs_not_cleared", STEPD, "                self.drift_state = None\n                self._initialize_retraining_recs()\n", "                self.drift_state = None\n", ["C05"])
@@ -142,7 +142,7 @@ M("c11_scaling_off_uses_scaler_stub", PC, "            else:\n                ne
 M("c11_test_window_not_slid", PC, "            self._test_pca_projection = pd.concat(\n                [self._test_pca_projection.iloc[1:, :], next_proj]\n            )", "            self._test_pca_projection = pd.concat(\n                [self._test_pca_projection.iloc[1:, :], next_proj]\n            ) if self.samples_since_reset % 7 else self._test_pca_projection", ["C11"])
 M("c11_bins_from_2w", PC, "self.bins = int(np.floor(np.sqrt(self.window_size)))", "self.bins = int(np.floor(np.sqrt(2 * self.window_size)))", ["C11"])
 M("c11_no_inverse_transform", PC, "                    self._reference_window = pd.DataFrame(\n                        self._reference_scaler.inverse_transform(self._reference_window)\n                    )", "                    self._reference_window = pd.DataFrame(self._reference_window)", ["C11"])
-M("c11_discard_sample_kept", PC, "                self._test_window = pd.DataFrame()\n                self.reset()", "                self._test_window = pd.DataFrame(X)\n                self.reset()", ["C11", "C01"])
+M("c11_discard_sample_kept", PC, "                self._test_window = pd.DataFrame()\n                self.reset()", "                self._test_window = pd.DataFrame(X)\n                self.reset()", ["C11"])
 
 LF = "menelaus/concept_drift/lfr.py"
 M("c06_confusion_transposed", LF, "self._confusion[y_p][y_t] += 1", "self._confusion[y_t][y_p] += 1", ["C06"])
@@ -193,3 +193,22 @@ M("c20_probabilities_unnormalised_by_class", LM, "                cls_idx.shape[
 M("c20_dirichlet_classes_misaligned", LM, "        self._alpha_values = [alpha[k] for k in alpha]", "        self._alpha_values = sorted(alpha[k] for k in alpha)", ["C20"])
 M("c20_cover_keeps_column", FM, "        ret = ret.drop(columns=[col]).reset_index(drop=True)", "        ret = ret.reset_index(drop=True)", ["C20"])
 M("c20_mutates_dict_again", LM, "        class_probabilities = dict(class_probabilities)\n", "", ["C20", "C15"])
+
+DT = "menelaus/detector.py"
+M("c01_ddm_no_auto_reset", DDM, "        if self.drift_state == \"drift\":\n            self.reset()\n\n        _, y_true, y_pred = super()._validate_input(None, y_true, y_pred)\n        super().update(None, y_true, y_pred)\n        # the arrays should have a single element after validation.\n        y_true, y_pred = y_true[0], y_pred[0]\n        classifier_result = int(y_pred != y_true)",
+  "        if self.drift_state == \"drift\" and self.total_samples % 7 != 3:\n            self.reset()\n\n        _, y_true, y_pred = super()._validate_input(None, y_true, y_pred)\n        super().update(None, y_true, y_pred)\n        # the arrays should have a single element after validation.\n        y_true, y_pred = y_true[0], y_pred[0]\n        classifier_result = int(y_pred != y_true)", ["C01", "C05"])
+M("c01_streaming_since_twice", DT, "        self.total_samples += 1\n        self.samples_since_reset += 1\n", "        self.total_samples += 1\n        self.samples_since_reset += 1 if self.total_samples % 50 else 2\n", ["C01"])
+M("c01_batch_total_skips", DT, "        self.total_batches += 1\n        self.batches_since_reset += 1\n", "        self.total_batches += 1 if self.total_batches != 6 else 2\n        self.batches_since_reset += 1\n", ["C01"])
+M("c01_eddm_recs_end_index", EDDM, "        if self.drift_state == \"drift\":\n            self._retraining_recs[1] = self.total_samples - 1\n", "        if self.drift_state == \"drift\":\n            self._retraining_recs[1] = self.total_samples\n", ["C01", "C05"])
+M("c01_stepd_recs_not_cleared_on_reset", STEPD, "        self._test_p = None\n        self._initialize_retraining_recs()\n\n    def update", "        self._test_p = None\n\n    def update", ["C01", "C05"])
+M("c01_pcacd_restart_value", PC, "                self._test_window = pd.DataFrame()\n                self.reset()\n", "                self._test_window = pd.DataFrame()\n                self.reset()\n                self.samples_since_reset = 1\n", ["C01", "C11"])
+M("c01_kdq_stream_no_restart_on_reference", KD, "        self.reset()\n        self._kdqtree = KDQTreePartitioner(", "        if input_type == \"batch\":\n            self.reset()\n        else:\n            KdqTreeDetector.reset(self)\n        self._kdqtree = KDQTreePartitioner(", ["C01"])
+M("c01_hdm_detect_batch_early", HD, "            condition2 = bool(self.batches_since_reset >= 3 and self.detect_batch == 3)", "            condition2 = bool(self.batches_since_reset >= 2 and self.detect_batch == 3)", ["C01", "C07"])
+M("c01_nndvi_no_reset", ND, "        if self._drift_state == \"drift\":\n            self.reset()\n", "        if self._drift_state == \"drift\" and self.total_batches % 5:\n            self.reset()\n", ["C01", "C10"])
+M("c01_lfr_state_domain", LF, "            self.all_drift_states.append(\"warning\")\n            self.drift_state = \"warning\"", "            self.all_drift_states.append(\"warning\")\n            self._drift_state = \"warn\"", ["C01", "C06"])
+M("c01_md3_total_on_label", MD, "        self.drift_state = None\n\n        if self.oracle_data is None:", "        self.drift_state = None\n        self.total_updates += 1\n\n        if self.oracle_data is None:", ["C01", "C19"])
+M("c01_ddm_guard_loosened", DDM, "if self.samples_since_reset < self.n_threshold:", "if self.samples_since_reset < self.n_threshold - 1:", ["C01", "C05"])
+M("c01_eddm_guard_loosened", EDDM, "if self._n_errors < self.n_threshold:", "if self._n_errors < self.n_threshold - 1:", ["C01", "C05"])
+M("c01_stepd_guard_loosened", STEPD, "if self.samples_since_reset >= 2 * self.window_size:", "if self.samples_since_reset >= 2 * self.window_size - 1:", ["C01", "C05"])
+M("c01_hdm_detect_batch_3_at_2", HD, "            condition1 = bool(self.batches_since_reset >= 2 and self.detect_batch != 3)", "            condition1 = bool(self.batches_since_reset >= 2 and (self.detect_batch != 3 or len(self.epsilon) >= 1 and self.total_batches % 4 == 0 and False))\n            if self.detect_batch == 3 and self.batches_since_reset == 2 and current_epsilon > 0.3:\n                self._drift_state = \"drift\"\n                self.reference = X\n                self._lambda = self.total_batches", ["C01", "C07"])
+M("c01_kdq_batch_restart_missing", KD, "        BatchDetector.reset(self)\n        KdqTreeDetector.reset(self)", "        if self.total_batches != 1:\n            BatchDetector.reset(self)\n        KdqTreeDetector.reset(self)", ["C01"])
